@@ -1,4 +1,92 @@
-import Sparrow.Model.Kang
+import Sparrow.Proofs.KangLemmas
+import Sparrow.Generated.Constants
+import Sparrow.Proofs.RealInst
+import Sparrow.Model.Source
+import Mathlib.Tactic.Ring
+/-
+  C19 — Kang engine: exact order recursion, placement invariance, direct-sound law.
+  Model: Sparrow/Model/Kang.lean.  The recursion is an instance of the fast engine's exchange
+  model (`KangScene.toEx`), so the core refinement theorem applies to it.
+-/
 namespace Sparrow.Props.C19
-theorem placeholder : True := trivial
+open Sparrow Finset
+
+
+theorem kang_arcs_char (ks : KangScene ℝ) (i j : Nat) :
+    (i, j) ∈ ks.toEx.arcs ↔ i < ks.P ∧ j < ks.P ∧ ks.wall i ≠ ks.wall j :=
+  Sparrow.kang_arcs_char ks i j
+
+
+theorem kang_wf (ks : KangScene ℝ) : ks.toEx.WF :=
+  Sparrow.kang_wf ks
+
+
+theorem kang_order_recursion (ks : KangScene ℝ) (k j t : Nat) (hj : j < ks.P) (ht : t < ks.S) :
+    orderH ks.toEx (k + 1) j 0 t =
+      ∑ i ∈ range ks.P,
+        if ks.wall i ≠ ks.wall j ∧ ks.bin i j ≤ t then
+          ks.ff i j * ks.refl j * ks.attw i j * orderH ks.toEx k i 0 (t - ks.bin i j)
+        else 0 :=
+  Sparrow.kang_order_recursion ks k j t hj ht
+
+
+theorem kang_truncation (ks : KangScene ℝ) (S' : Nat) (hS : S' ≤ ks.S) (k j t : Nat)
+    (hj : j < ks.P) (ht : t < S') :
+    orderH ({ ks with S := S' } : KangScene ℝ).toEx k j 0 t = orderH ks.toEx k j 0 t :=
+  Sparrow.kang_truncation ks S' hS k j t hj ht
+
+
+theorem kang_monotone_in_k (ks : KangScene ℝ) (he : ∀ j, 0 ≤ ks.e0 j)
+    (hf : ∀ i j, 0 ≤ ks.ff i j * ks.refl j * ks.attw i j) (binR : Nat → Nat) (factor : Nat → ℝ)
+    (hfac : ∀ j, 0 ≤ factor j) (K t : Nat) :
+    kangReceiver ks.toEx K binR factor t ≤ kangReceiver ks.toEx (K + 1) binR factor t :=
+  Sparrow.kang_monotone_in_k ks he hf binR factor hfac K t
+
+
+theorem kangFFOrth_translation (sc rc ns nr t : Vec3 ℝ) (dd thr5 thr12 : ℝ) :
+    kangFFOrth (sc.tr t) (rc.tr t) ns nr dd thr5 thr12 = kangFFOrth sc rc ns nr dd thr5 thr12 :=
+  Sparrow.kangFFOrth_translation sc rc ns nr t dd thr5 thr12
+
+
+theorem kangFFPar_translation (sc rc wd t : Vec3 ℝ) (dd thr5 : ℝ) :
+    kangFFPar (sc.tr t) (rc.tr t) wd dd thr5 = kangFFPar sc rc wd dd thr5 :=
+  Sparrow.kangFFPar_translation sc rc wd t dd thr5
+
+
+theorem kangInitPatch_translation (normal center size src t : Vec3 ℝ) (power alpha att thr99 thr11 : ℝ) :
+    kangInitPatch normal (center.tr t) size (src.tr t) power alpha att thr99 thr11 =
+      kangInitPatch normal center size src power alpha att thr99 thr11 :=
+  Sparrow.kangInitPatch_translation normal center size src t power alpha att thr99 thr11
+
+
+theorem kangFFOrth_cyclic (sc rc ns nr : Vec3 ℝ) (dd thr5 thr12 : ℝ)
+    (hs : AxisAligned ns thr5) (hr : AxisAligned nr thr5)
+    (hdiff : normalAxis ns thr5 ≠ normalAxis nr thr5) :
+    kangFFOrth sc.cyc rc.cyc ns.cyc nr.cyc dd thr5 thr12 = kangFFOrth sc rc ns nr dd thr5 thr12 :=
+  Sparrow.kangFFOrth_cyclic sc rc ns nr dd thr5 thr12 hs hr hdiff
+
+/-- parallel walls: the wall centres differ along exactly one axis (the common normal) -/
+theorem kangFFPar_cyclic (sc rc wd : Vec3 ℝ) (dd thr5 : ℝ)
+    (hw : (thr5 < wd.x ∧ ¬ thr5 < wd.y ∧ ¬ thr5 < wd.z) ∨ (¬ thr5 < wd.x ∧ thr5 < wd.y ∧ ¬ thr5 < wd.z) ∨
+      (¬ thr5 < wd.x ∧ ¬ thr5 < wd.y ∧ thr5 < wd.z)) :
+    kangFFPar sc.cyc rc.cyc wd.cyc dd thr5 = kangFFPar sc rc wd dd thr5 :=
+  Sparrow.kangFFPar_cyclic sc rc wd dd thr5 hw
+
+
+theorem kangInitPatch_cyclic (normal center size src : Vec3 ℝ) (power alpha att thr99 thr11 : ℝ)
+    (hn : AxisAligned normal thr99) :
+    kangInitPatch normal.cyc center.cyc size.cyc src.cyc power alpha att thr99 thr11 =
+      kangInitPatch normal center size src power alpha att thr99 thr11 :=
+  Sparrow.kangInitPatch_cyclic normal center size src power alpha att thr99 thr11 hn
+
+/-- The direct sound adds exactly `exp(-m r) / (4π r²)` (in bin `⌊r/c·fs⌋`, when not ignored). -/
+theorem kang_direct (r m : ℝ) : directSound r m = Real.exp (-m * r) / (4 * Real.pi * r ^ 2) := by
+  unfold directSound
+  simp only [transc_exp_real, transc_pi_real]
+  ring
+
+/-- The delay helper as the source has it now: `np.roll` followed by zeroing the wrapped head,
+    i.e. the truncating shift (tied bit for bit by the correspondence). -/
+theorem kang_delay_site : Generated.kangDelayRolls = true ∧ Generated.kangDelayZeroesHead = true := by decide
+
 end Sparrow.Props.C19
